@@ -73,6 +73,8 @@ pub struct PipelineResult {
     /// diagnostics against operation files: file index = schema_files.len() + index into op_files
     pub op_diags: Vec<Diag>,
     pub check_passed: bool,
+    /// errors returned by the generators (e.g. a scalar without a configured TypeScript type)
+    pub generate_errors: Vec<String>,
     pub outputs: Option<Outputs>,
     pub stages_run: Vec<&'static str>,
 }
@@ -115,6 +117,8 @@ pub struct ProjectInput<'a> {
     pub config: &'a str,
     /// run the generators even if check reports diagnostics (never done by the CLI; used by no monitor by default)
     pub generate: bool,
+    /// stop after `check` (what `nitrogql check` does)
+    pub check_only: bool,
 }
 
 /// Runs the whole library route. Never panics itself; every repository call is guarded.
@@ -287,7 +291,7 @@ pub fn run_project(input: &ProjectInput) -> PipelineResult {
         }
     }
     res.check_passed = res.op_diags.is_empty();
-    if !res.check_passed && !input.generate {
+    if (!res.check_passed && !input.generate) || input.check_only {
         return res;
     }
 
@@ -305,7 +309,7 @@ pub fn run_project(input: &ProjectInput) -> PipelineResult {
         Err(p) => res.panics.push(("SchemaTypePrinter".into(), p)),
         Ok((r, b)) => {
             if let Err(e) = r {
-                res.schema_diags.push(Diag { kind: "SchemaTypePrinterError".into(), message: e, pos: None, builtin_pos: false, additional: vec![], rendered: None });
+                res.generate_errors.push(format!("SchemaTypePrinter: {e}"));
             }
             out.schema_dts = b.buffer;
             out.schema_map = b.source_map;
@@ -326,7 +330,7 @@ pub fn run_project(input: &ProjectInput) -> PipelineResult {
         Err(p) => res.panics.push(("ResolverTypePrinter".into(), p)),
         Ok((r, b)) => {
             if let Err(e) = r {
-                res.schema_diags.push(Diag { kind: "ResolverTypePrinterError".into(), message: e, pos: None, builtin_pos: false, additional: vec![], rendered: None });
+                res.generate_errors.push(format!("ResolverTypePrinter: {e}"));
             }
             out.resolvers_dts = b.buffer;
         }
